@@ -62,16 +62,16 @@ Lemma init_loop_serial fixed n : inorder fixed n ->
   (exists k, res = acc ++ valid (firstn k stream)) /\ (length acc <= total -> length res = total).
 Proof.
   intro Hin. induction fuel as [|fuel IH]; intros total stream scheds p acc res W C H.
-  - simpl in H. destruct (total <=? length acc) eqn:Ht; [|discriminate].
+  - revert H. cbn [init_loop]. destruct (total <=? length acc) eqn:Ht; intro H; [|discriminate].
     inversion H; subst. apply Nat.leb_le in Ht. split; [exists 0; simpl; rewrite app_nil_r; auto | lia].
-  - cbn [init_loop] in H. destruct (total <=? length acc) eqn:Ht.
-    { inversion H; subst. apply Nat.leb_le in Ht. split; [exists 0; simpl; rewrite app_nil_r; auto | lia]. }
+  - revert H. cbn [init_loop]. destruct (total <=? length acc) eqn:Ht.
+    { intro H. inversion H; subst. apply Nat.leb_le in Ht. split; [exists 0; simpl; rewrite app_nil_r; auto | lia]. }
     apply Nat.leb_gt in Ht.
-    set (bsz := Nat.min (total - length acc) n) in *.
-    destruct (length (firstn bsz stream) <? bsz); [discriminate|].
+    set (bsz := Nat.min (total - length acc) n).
+    destruct (length (firstn bsz stream) <? bsz); [intro H0; discriminate H0|].
     destruct (batch fixed (map snd (firstn bsz stream)) (hd [] scheds) p) as [p1 o] eqn:Hb.
-    destruct (bo_done o) eqn:D; simpl in H; [|discriminate].
-    destruct (bo_raised o) eqn:Hr; [discriminate|].
+    destruct (bo_done o) eqn:D; cbn [negb]; [|intro H0; discriminate H0].
+    destruct (bo_raised o) eqn:Hr; [intro H0; discriminate H0|]. intro H.
     destruct (batch_inorder fixed n _ _ _ _ _ Hin W C Hb D) as (W1 & C1 & Ex).
     pose proof (exact_raised_none _ _ Ex Hr) as Hno.
     destruct Ex as (Hy & _). rewrite Hy, keep_valid in H by exact Hno.
